@@ -48,6 +48,7 @@ type GenConfig struct {
 	NoCodePred  bool // no &{} / !{} blocks (bootstrap subset)
 	NoSpellings bool // canonical spelling of literals and classes only
 	ByteLits    bool // literals whose value is not UTF-8 (front-end checks only)
+	NoScale     bool // no big entry rules (scale.go)
 }
 
 // Profile returns the configuration of a named profile.
@@ -927,6 +928,20 @@ func GrammarGen(cfg GenConfig) *rapid.Generator[*Grammar] {
 		}
 		c.g.Rules = append(rules, recRules...)
 		c.g.Entries = append([]string{}, entries...)
+		bigKind := map[string]string{}
+		if !cfg.NoScale && c.chance(10, "scale") {
+			// big entry rules (scale.go)
+			big := c.bigRules()
+			c.g.Rules = append(c.g.Rules, big...)
+			for _, br := range big {
+				c.nullable[br.Name] = br.Big == "star"
+				if br.Big != "" {
+					bigKind[br.Name] = br.Big
+					entries = append(entries, br.Name)
+					c.g.Entries = append(c.g.Entries, br.Name)
+				}
+			}
+		}
 		if cfg.Wrappers {
 			for i, en := range entries {
 				w := &Rule{Name: fmt.Sprintf("W%d", i+1), Expr: &Expr{K: KAction, ID: c.id(),
@@ -934,11 +949,12 @@ func GrammarGen(cfg GenConfig) *rapid.Generator[*Grammar] {
 				if cfg.NameStyle == 1 {
 					w.Name = "W" + en
 				}
+				w.Big = bigKind[en]
 				c.g.Rules = append(c.g.Rules, w)
 				c.g.Entries = append(c.g.Entries, w.Name)
 			}
 		}
-		if (cfg.SharedRefs && !cfg.OptBait) || cfg.Profile == "utf8" {
+		if !cfg.NoSpellings {
 			// Loop = ( E1 / E2 / . )* : an entry that works its way through any input, trying the
 			// other entries at every offset (long inputs, see C06)
 			alts := &Expr{K: KChoice}
@@ -947,8 +963,16 @@ func GrammarGen(cfg GenConfig) *rapid.Generator[*Grammar] {
 					alts.Sub = append(alts.Sub, &Expr{K: KRef, Name: en})
 				}
 			}
-			alts.Sub = append(alts.Sub, &Expr{K: KAny})
-			c.g.Rules = append(c.g.Rules, &Rule{Name: "Loop", Expr: &Expr{K: KStar, Sub: []*Expr{alts}}})
+			var loop *Expr
+			if cfg.Profile == "errors" {
+				// (a parse that fails far into a long input: the samples never hold a 'z')
+				alts.Sub = append(alts.Sub, &Expr{K: KClass, Chars: []rune{'z'}, Inv: true})
+				loop = &Expr{K: KSeq, Sub: []*Expr{{K: KStar, Sub: []*Expr{alts}}, {K: KLit, Val: []byte("z")}}}
+			} else {
+				alts.Sub = append(alts.Sub, &Expr{K: KAny})
+				loop = &Expr{K: KStar, Sub: []*Expr{alts}}
+			}
+			c.g.Rules = append(c.g.Rules, &Rule{Name: "Loop", Expr: loop})
 			c.g.Entries = append(c.g.Entries, "Loop")
 		}
 		c.g.Pkg = "p"
